@@ -7,6 +7,10 @@ from .values import *  # noqa
 from .state import Fork, Unsupported, State
 
 
+IS_EMPTY = z3.Function('is_empty', Elem, z3.BoolSort())
+STRCAT = z3.Function('strcat', Elem, Elem, Elem)
+
+
 def I(x):
     return x if z3.is_expr(x) else z3.IntVal(x)
 
@@ -87,7 +91,8 @@ class Evaluator:
         if isinstance(v, VTuple):
             return z3.BoolVal(len(v.items) > 0)
         if isinstance(v, VElem):
-            return v.t != NONE_ELEM     # opaque objects are truthy unless None (A-PY: no __bool__/__len__ overloads)
+            # opaque objects are falsy iff None or "empty" (empty string / empty container): is_empty is uninterpreted
+            return z3.And(v.t != NONE_ELEM, z3.Not(IS_EMPTY(v.t)))
         if isinstance(v, (VObj, VFunc, VSlice)):
             return z3.BoolVal(True)
         raise Unsupported('truthiness of %r' % (v,))
@@ -336,6 +341,8 @@ class Evaluator:
         g = self.resolve_global(n, st)
         if g is not None:
             return g
+        if n == 'Path':
+            return VFunc('module', 'pathlib.Path')
         raise Unsupported('unknown name %r (line %s)' % (n, getattr(node, 'lineno', '?')))
 
     def ev_Tuple(self, node, st):
@@ -445,6 +452,8 @@ class Evaluator:
             return VStr(a.s % (b.s if isinstance(b, VStr) else '?')) if isinstance(b, VStr) else VStr(a.s)
         if isinstance(a, VStr) and isinstance(b, VStr) and isinstance(op, ast.Add):
             return VStr(a.s + b.s)
+        if isinstance(op, ast.Add) and isinstance(a, (VElem, VStr)) and isinstance(b, (VElem, VStr)):
+            return VElem(STRCAT(flatten('elem', a)[0], flatten('elem', b)[0]))
         if not (is_num(a) and is_num(b)):
             h = self.binop_hook(op, a, b, st, node)
             if h is not None:
@@ -655,6 +664,10 @@ class Evaluator:
             raise Unsupported('attribute %s of %r' % (attr, base))
         if isinstance(base, VModule):
             return VFunc('module', base.name + '.' + attr)
+        if isinstance(base, VElem):
+            m = self.resolve_elem_attr(base, attr, st)
+            if m is not None:
+                return m
         if isinstance(base, VBlocks) and attr == 'append':
             return VFunc('blocksmethod', attr, self_val=base)
         if isinstance(base, VList) and attr in ('append', 'extend'):
